@@ -1125,9 +1125,15 @@ class Prelude:
                 depth -= 1
                 if depth == 0: groups.append((start, j))
         ret = ft[:groups[0][0]].strip() if not ft[groups[0][0] + 1:groups[0][1]].strip().startswith('*') else None
+        fpret = None
         if ret is None:
-            # function returning a function pointer etc.
-            raise Unsupported('complex function type ' + ft)
+            # R1c: function returning a pointer to function, `RET (*(PARAMS) [const])(FPARAMS)`: the C declarator is
+            # `RET (*name(params))(FPARAMS)`; anything more complex has no rule
+            mfp = re.match(r'^\*\s*\((.*)\)\s*(const)?$', ft[groups[0][0] + 1:groups[0][1]].strip(), re.S)
+            if not mfp or len(groups) != 2 or ft[groups[1][1] + 1:].strip():
+                raise Unsupported('complex function type ' + ft)
+            fpret = (ft[:groups[0][0]].strip(), ft[groups[1][0]:groups[1][1] + 1])
+            ret = fpret[0] + ' (*)' + fpret[1]
         ps = []
         ret_slot = None; ret_class = None; ret_ref = ret.endswith('&')
         k = f['kind']
@@ -1164,6 +1170,10 @@ class Prelude:
         if variadic: ps.append('...')
         st = 'static ' if (k == 'FunctionDecl' and f.get('storageClass') == 'static') else ''
         proto = '%s%s(%s)' % (st, self._declarator(rett, cname) if '(*' in rett else rett + ' ' + cname, ', '.join(ps) or 'void')
+        if fpret:
+            mr = re.match(r'^(.*?)\(\*\)\s*(\(.*\))$', rett)
+            if not mr: raise Unsupported('complex function type ' + ft)
+            proto = '%s%s(*%s(%s))%s' % (st, mr.group(1), cname, ', '.join(ps) or 'void', mr.group(2))
         f['_ret_ref'] = ret_ref
         return proto, ret_slot, ret_class
 
